@@ -62,3 +62,40 @@ add("C04", "benign-helper-extraction", SPW,
      ("    def _parse_file(self):\n        with open(self.path, encoding=\"utf-8\") as f:\n            return cst.parse_module(f.read())",
       "    def _store(self, code):\n        with open(self.path, \"w\", encoding=\"utf-8\") as f:\n            f.write(code)\n\n    def _parse_file(self):\n        with open(self.path, encoding=\"utf-8\") as f:\n            return cst.parse_module(f.read())")],
     "silent")
+
+# --------------------------------------------------------------------------- C03
+add("C03", "libcst-writes-source-tree", LT,
+    [("update_code(file_context.file_path, tree.code)", "update_code(file_context.file_path, source_tree.code)")],
+    "fire", "R-DIFF-WRITE-AGREE", "LibcstTransformerPipeline.apply")
+add("C03", "regex-diff-against-other-lines", RT,
+    [("        diff = create_diff(original_lines, updated_lines)", "        diff = create_diff(original_lines, [l.rstrip() + \"\\n\" for l in updated_lines])")],
+    "fire", "R-DIFF-WRITE-AGREE", "RegexTransformerPipeline.apply")
+add("C03", "requirements-writes-unnormalised", REQW,
+    [("                    f.writelines(updated_lines)", "                    f.writelines(lines + requirement_lines)")],
+    "fire", "R-DIFF-WRITE-AGREE", "RequirementsTxtWriter.add_to_file")
+add("C03", "libcst-write-before-empty-diff-check", LT,
+    [("        if not (diff := create_diff_from_tree(source_tree, tree)):\n            logger.debug(\"No code diff produced for %s\", file_path)\n            return None\n",
+      "        if not context.dry_run:\n            update_code(file_context.file_path, tree.code)\n        if not (diff := create_diff_from_tree(source_tree, tree)):\n            logger.debug(\"No code diff produced for %s\", file_path)\n            return None\n")],
+    "fire", "R-CHANGESET-IFF-WRITE", "LibcstTransformerPipeline.apply")
+add("C03", "xml-changeset-without-write-on-some-path", XT,
+    [("            if not context.dry_run:\n                file_context.file_path.write_bytes", "            if not context.dry_run and len(new_lines) > 1:\n                file_context.file_path.write_bytes")],
+    "fire", "R-CHANGESET-IFF-WRITE", "XMLTransformerPipeline.apply")
+add("C03", "libcst-drops-empty-diff-test", LT,
+    [("        if not (diff := create_diff_from_tree(source_tree, tree)):\n            logger.debug(\"No code diff produced for %s\", file_path)\n            return None\n",
+      "        diff = create_diff_from_tree(source_tree, tree)\n")],
+    "fire", "R-EMPTY-DIFF-NO-CHANGESET", "LibcstTransformerPipeline.apply")
+add("C03", "libcst-drops-no-changes-test", LT,
+    [("        if not file_context.codemod_changes:\n            logger.debug(\"No changes produced for %s\", file_path)\n            return None\n", "")],
+    "fire", "R-EMPTY-DIFF-NO-CHANGESET", "LibcstTransformerPipeline.apply")
+add("C03", "regex-text-mode-write", RT,
+    [("file_context.file_path.write_bytes(\"\".join(updated_lines).encode(\"utf-8\"))", "file_context.file_path.write_text(\"\".join(updated_lines))")],
+    "fire", "R-NEWLINE-LOSSLESS", "RegexTransformerPipeline.apply")
+add("C03", "libcst-cached-read", LT,
+    [("                source_tree = cst.parse_module(file_path.read_bytes().decode(\"utf-8\"))", "                source_tree = _parse(file_path)"),
+     ("def update_code(file_path, new_code):", "import functools\n\n\n@functools.cache\ndef _parse(file_path):\n    return cst.parse_module(file_path.read_bytes().decode(\"utf-8\"))\n\n\ndef update_code(file_path, new_code):")],
+    "fire", "", "LibcstTransformerPipeline.apply")
+add("C03", "benign-rename-locals", RT,
+    [("        changes, updated_lines = self._apply(original_lines, file_context, results)", "        changes, new_lines = self._apply(original_lines, file_context, results)"),
+     ("        diff = create_diff(original_lines, updated_lines)", "        diff = create_diff(original_lines, new_lines)"),
+     ("file_context.file_path.write_bytes(\"\".join(updated_lines).encode(\"utf-8\"))", "file_context.file_path.write_bytes(\"\".join(new_lines).encode(\"utf-8\"))")],
+    "silent")
